@@ -68,6 +68,10 @@ func processOcode(oc ocode.Ocode, ctx *CodeGenContext, machineCode *[]byte) ([]b
 
 	// Check if the instruction is a no-parameter instruction handled by opcodeMap
 	// (オペランド付きの MUL/DIV/IDIV などは 1 バイトのオペコード表では生成できないため、下の switch に回す)
+	// 複数バイトのオペコードや 66h が必要な命令は NoParamEncoding が完全なバイト列を返す
+	if code, ok, err := NoParamEncoding(oc.Kind, ctx.BitMode); ok && len(oc.Operands) == 0 {
+		return code, err
+	}
 	if _, exists := opcodeMap[oc.Kind]; exists && len(oc.Operands) == 0 {
 		return handleNoParamOpcode(oc), nil
 	}
